@@ -612,6 +612,7 @@ func (l *ShardedMap[K, V]) Set(k K, f func(V, bool) (V, error)) (v V, created bo
 	default:
 		v, created, err := i.Set(k, f)
 		if err == nil && created {
+			verifGate("shardedmap.count", l)
 			atomic.AddInt64(&l.length, 1)
 		}
 
@@ -626,6 +627,7 @@ func (l *ShardedMap[K, V]) Remove(k K, f func(V, bool) error) (bool, error) {
 	case found:
 		removed, err := i.Remove(k, f)
 		if err == nil && removed {
+			verifGate("shardedmap.count", l)
 			atomic.AddInt64(&l.length, -1)
 		}
 
